@@ -4,7 +4,7 @@
     Constant / Extract Inductive of our own. *)
 Require Extraction.
 Require Import ExtrOcamlBasic.
-From NX Require Import Frame Pad Records Request Info Stream Reasm Config.
+From NX Require Import Frame Pad Records Request Info Stream Reasm Config Handshake.
 Extraction "model.ml" Frame.frame_create Frame.frame_decode Frame.recv_dispatch
   Frame.hdr_decode Frame.crc16 Crc.crc_spec Pad.data_align
   Records.chan_new Records.dev_new Records.chan_setattr Records.dev_setattr Records.get
@@ -14,4 +14,5 @@ Extraction "model.ml" Frame.frame_create Frame.frame_decode Frame.recv_dispatch
   Info.frame_cmninfo_decode Info.frame_chinfo_decode Info.frame_ack_decode
   Stream.stream_decode Stream.frame_stream_encode Stream.stream_data_encode Stream.msfmt_get Stream.dsfmt_get
   Reasm.recv_all Reasm.scan Reasm.read_frame
-  Config.step Config.connected Config.run.
+  Config.step Config.connected Config.run
+  Handshake.connect Handshake.nx_step Handshake.nx0 Handshake.disconnect.
